@@ -281,7 +281,12 @@ pub fn extract_tls_signature_from_client_hello(
         match parse_tls_extensions(ext_data) {
             Ok((_remaining, parsed_extensions)) => {
                 for extension in &parsed_extensions {
-                    let ext_type: u16 = TlsExtensionType::from(extension).into();
+                    // The parser reports every type of the shape 0x?a?a as GREASE; keep the real code point so that
+                    // only the 16 values of RFC 8701 are filtered below.
+                    let ext_type: u16 = match extension {
+                        TlsExtension::Grease(code, _) => *code,
+                        other => TlsExtensionType::from(other).into(),
+                    };
 
                     // Filter GREASE extensions
                     if !TLS_GREASE_VALUES.contains(&ext_type) {
